@@ -15,7 +15,7 @@ func init() {
 		},
 		Harnesses: []harnessSpec{{
 			Name: "VxC35", Pkg: "github.com/goplus/xgo/x/xgoprojs", Files: []string{"c35/c35.go"},
-			Quick: map[string]int{"K": 3, "L": 3}, Thorough: map[string]int{"K": 4, "L": 4},
+			Quick: map[string]int{"K": 3, "L": 3}, Thorough: map[string]int{"K": 3, "L": 4},
 		}},
 	})
 
@@ -352,7 +352,7 @@ func init() {
 	}
 	register(&checkSpec{
 		ID:   "C39",
-		Rule: "one real Connection (newConnection, Call, Await, Close, Wait, Respond, readIncoming, acceptRequest, handleAsync, processResult, write, updateInFlight; the real context.WithCancel) over a message-level wire owned by the harness (Framer handing Message values through channels); goroutines: NC clients (Call + Await), a peer whose behaviour is a symbolic choice up to PEER (0 answers, 1 answers twice, 2 sends an unknown ID first, 3 disconnects instead), INC=1 an incoming call handled synchronously, INC=2 handled through ErrAsyncResponse and a later Respond, CLOSE=1 a concurrent Close; every scheduling decision at a mutex / channel / select operation and every choice among ready select cases is a symbolic variable; checked: no 'retire called twice' / 'non-idle when done' / 'incoming count already zero' panic on any schedule, and at quiescence every Await has returned with an error or with the response carrying its own ID, every incoming call was answered at most once, Close returned and no handler was still running when it did",
+		Rule: "one real Connection (newConnection, Call, Await, Close, Wait, Respond, readIncoming, acceptRequest, handleAsync, processResult, write, updateInFlight; the real context.WithCancel) over a message-level wire owned by the harness (Framer handing Message values through channels); goroutines: NC clients (Call + Await), a peer whose behaviour is a symbolic choice up to PEER (0 answers, 1 answers twice, 2 sends an unknown ID first, 3 disconnects instead), INC=1 an incoming call handled synchronously, INC=2 handled through ErrAsyncResponse and a later Respond, INC=3 in addition a second incoming call reusing the ID of the first while it is in flight, CLOSE=1 a concurrent Close; every scheduling decision at a mutex / channel / select operation and every choice among ready select cases is a symbolic variable; checked: no 'retire called twice' / 'non-idle when done' / 'incoming count already zero' panic on any schedule, and at quiescence every Await has returned with an error or with the response carrying its own ID, every incoming call was answered at most once, Close returned and no handler was still running when it did",
 		Assumptions: []string{
 			"bound: NC clients, one incoming call, at most PB pre-emptive context switches per schedule (CHESS-style); the scenario family is stated in the rule - notifications, Cancel and a failing Writer are not exercised",
 			"the wire is at message level: framing and JSON encoding are C38's subject; calls carry nil params and handlers answer with an error value, so encoding/json is never entered",
@@ -365,6 +365,7 @@ func init() {
 			c39(map[string]int{"NC": 1, "CLOSE": 0, "INC": 1, "PEER": 0, "PB": 1}, map[string]int{"NC": 1, "CLOSE": 1, "INC": 1, "PEER": 1, "PB": 1}),
 			c39(map[string]int{"NC": 0, "CLOSE": 1, "INC": 1, "PEER": 0, "PB": 2}, map[string]int{"NC": 0, "CLOSE": 1, "INC": 1, "PEER": 0, "PB": 3}),
 			c39(map[string]int{"NC": 0, "CLOSE": 1, "INC": 2, "PEER": 0, "PB": 1}, map[string]int{"NC": 0, "CLOSE": 1, "INC": 2, "PEER": 0, "PB": 2}),
+			c39(map[string]int{"NC": 0, "CLOSE": 1, "INC": 3, "PEER": 0, "PB": 1}, map[string]int{"NC": 0, "CLOSE": 1, "INC": 3, "PEER": 0, "PB": 2}),
 			c39(map[string]int{"NC": 2, "CLOSE": 0, "INC": 0, "PEER": 0, "PB": 1}, map[string]int{"NC": 2, "CLOSE": 1, "INC": 0, "PEER": 3, "PB": 1}),
 		},
 	})
